@@ -932,9 +932,19 @@ def generate(ck):
 def run(ck):
     if os.environ.get('VERIF_COVERAGE'):
         return coverage_run(ck)
-    N_THEOREMS = 26
-    proof_ok, failing = ck.proof_stage('MpVerif.C11.Props', 'MpVerif/C11/Props.lean', 'C11_',
-                                        ['MpVerif/C11/*.lean'], expect_min=N_THEOREMS)
+    N_THEOREMS = 67
+    # 1. regenerate the source-derived definitions (byte conditions, int conversion, statement skeletons, value kinds)
+    gen = os.path.join(LEAN, 'MpVerif', 'Gen', 'C11Tok.lean')
+    rc, out, err = sh([sys.executable, os.path.join(VERIF, 'translators', 'gen_c11.py'), REPO, gen, os.path.join(BUILD, 'tr')], timeout=600)
+    ck.log((out.strip() or err.strip())[-300:])
+    translator_ok = rc == 0
+    if translator_ok:
+        proof_ok, failing = ck.proof_stage('MpVerif.C11.Props', 'MpVerif/C11/Props.lean', 'C11_',
+                                            ['MpVerif/C11/*.lean', 'MpVerif/Gen/C11Tok.lean'], expect_min=N_THEOREMS)
+    else:
+        # the translator met code it cannot translate: the tie is broken (the correspondence below still searches for an input)
+        proof_ok, failing = False, ['translator: ' + (out + err).strip()[-400:]]
+        ck.cov.update({'obligations': N_THEOREMS, 'discharged': 0, 'checker_cmd': 'translators/gen_c11.py failed'})
     ck.log('proof stage: ok=%s failing=%s' % (proof_ok, failing[:10]))
     if ck.tier == 'thorough' and proof_ok:
         badm = ck.leanchecker(['MpVerif.C11.Props'])
@@ -1070,7 +1080,8 @@ def run(ck):
         'memory safety (C11_in_bounds) is a theorem about the model\'s read positions; on the real code it is AddressSanitizer/UBSan evidence on the generated inputs',
     ]
     ck.level = 'proof'
-    ck.cov['trusted_base'] += ['harness/h_options.cc + checks/c11.py generators/canonicaliser', 'AddressSanitizer/UBSan (g++ 12) for the memory-safety clause on sampled inputs']
+    ck.cov['trusted_base'] += ['translators/gen_c11.py + clang-14 typed AST (byte conditions, long->int conversion, statement skeletons regenerated from src/solver.cc and solver-opt.h on every run); MpVerif/C11/CLib.lean: signed char, C-locale isspace',
+                               'harness/h_options.cc + checks/c11.py generators/canonicaliser', 'AddressSanitizer/UBSan (g++ 12) for the memory-safety clause on sampled inputs']
 
 
 
